@@ -162,6 +162,16 @@ def oracle_runs(case, obs):
             named = [f for f in moving if "'" + os.path.relpath(f["dst"], os.path.dirname(f["dst"]) or ".") in obs["err"] or f["dst"].split("/")[-1] in obs["err"]]
             if not named:
                 return f"the conflict message does not name a planned destination: {obs['err'][-160:]}"
+        if obs["rc"] == 0 and not duplicates:
+            # the converse: a destination that already existed and is not vacated by the run (it is not the path of a
+            # file that moves away), or one shared by two files, is a conflict - the run must not report success
+            moving_srcs = {f["src"] for f in moving}
+            for f in moving:
+                if f["dst"] in before and f["dst"] not in moving_srcs:
+                    return (f"stop: {f['src']!r} -> {f['dst']!r} targets an entry that already existed and does not move away, "
+                            f"yet the run exits with status 0")
+            if len({f["dst"] for f in moving}) != len(moving):
+                return "stop: two files share one destination, yet the run exits with status 0"
     if strategy == "ignore":
         if conflict_msg:
             return "ignore ended the run with the conflict status"
